@@ -3,6 +3,7 @@ package nodis
 import (
 	"fmt"
 	"log"
+	"math"
 	"os"
 	"runtime"
 	"strconv"
@@ -2041,13 +2042,17 @@ func zAdd(n *Nodis, conn *redis.Conn, cmd redis.Command) {
 				break
 			}
 			score, err := strconv.ParseFloat(cmd.Args[i], 64)
-			if err != nil {
+			if err != nil || math.IsNaN(score) {
 				conn.WriteError("ERR score value is not a valid float")
 				return
 			}
 			member := cmd.Args[i+1]
 			if cmd.Options.INCR > 0 {
 				score = n.ZIncrBy(key, member, score)
+				if math.IsNaN(score) {
+					conn.WriteError("ERR resulting score is not a number (NaN)")
+					return
+				}
 				conn.WriteBulk(strconv.FormatFloat(score, 'f', -1, 64))
 				return
 			}
@@ -2172,6 +2177,10 @@ func zIncrBy(n *Nodis, conn *redis.Conn, cmd redis.Command) {
 	execCommand(conn, func() {
 		member := cmd.Args[2]
 		v := n.ZIncrBy(key, member, score)
+		if math.IsNaN(v) {
+			conn.WriteError("ERR resulting score is not a number (NaN)")
+			return
+		}
 		conn.WriteBulk(strconv.FormatFloat(v, 'f', -1, 64))
 	})
 }
